@@ -113,6 +113,20 @@ def run_extractor():
     return {"ran": rc == 0, "error": None if rc == 0 else out[-2000:]}
 
 
+def run_pre(pre):
+    """Optional per-property deterministic step (props entry "pre": [{"name": .., "cmd": [..], "cwd": "rel/dir"}]).
+    Placeholders {repo} {verif} {build} {lean} are substituted in cmd; the command runs with the Go
+    environment of the harness. A non-zero exit marks an obligation of the property as broken."""
+    sub = {"repo": REPO, "verif": VERIF, "build": BUILD, "lean": LEAN}
+    cmd = [c.format(**sub) for c in pre["cmd"]]
+    cwd = os.path.join(VERIF, pre.get("cwd", "."))
+    try:
+        with Lock("go"):
+            return run(cmd, cwd=cwd, env=GOENV, timeout=pre.get("timeout", 900))
+    except (OSError, subprocess.TimeoutExpired) as e:
+        return 125, "pre step failed to run: %r" % (e,)
+
+
 def lean_build(modules, drivers=("ibcmodel",)):
     targets = list(modules) + list(drivers)
     with Lock("lake"):
@@ -176,24 +190,34 @@ def audit(pid, modules):
             "ok": rc == 0 and not dirty and not bad_tokens, "raw": out if rc != 0 else ""}
 
 
-def _modfile_args():
+def _modfile_args(hdir=None):
     """When VERIF_REPO points at a scratch worktree (mutation testing), build against it through an
-    alternate go.mod so that /verif/harness/go.mod (which names /repo) stays untouched."""
+    alternate go.mod so that the harness go.mod (which names /repo) stays untouched.
+    hdir: a harness module other than /verif/harness (engine key "harness_dir")."""
     if REPO == "/repo":
         return []
-    alt = os.path.join(BUILD, "alt.mod")
-    src = open(os.path.join(HARNESS, "go.mod")).read().replace("=> /repo\n", "=> %s\n" % REPO)
+    if hdir is None or hdir == HARNESS:
+        alt = os.path.join(BUILD, "alt.mod")
+        src = open(os.path.join(HARNESS, "go.mod")).read().replace("=> /repo\n", "=> %s\n" % REPO)
+        sumsrc = os.path.join(REPO, "go.sum")
+    else:
+        alt = os.path.join(BUILD, "alt-%s.mod" % os.path.basename(hdir))
+        src = re.sub(r"=> /repo(/[^\n]*)?\n", lambda m: "=> %s%s\n" % (REPO, m.group(1) or ""), open(os.path.join(hdir, "go.mod")).read())
+        sumsrc = os.path.join(hdir, "go.sum")
     if not os.path.exists(alt) or open(alt).read() != src:
         open(alt, "w").write(src)
-        shutil.copyfile(os.path.join(REPO, "go.sum"), os.path.join(BUILD, "alt.sum"))
+        shutil.copyfile(sumsrc, alt[:-4] + ".sum")
     return ["-modfile", alt]
 
 
 _built = set()
-def go_build(cmdname):
+def go_build(cmdname, harness_dir=None):
+    """build ./cmd/<cmdname> of /verif/harness, or of the harness module /verif/<harness_dir>
+    (engine key "harness_dir", used by the separate 08-wasm Go module)."""
     exe = os.path.join(BUILD, cmdname)
     if cmdname in _built:
         return True, exe, ""
+    hdir = HARNESS if not harness_dir else os.path.join(VERIF, harness_dir)
     gosum = os.path.join(HARNESS, "go.sum")
     try:
         shutil.copyfile(os.path.join(REPO, "go.sum"), gosum + ".repo")
@@ -204,7 +228,7 @@ def go_build(cmdname):
     except OSError:
         pass
     with Lock("go"):
-        rc, out = run(["go", "build"] + _modfile_args() + ["-tags", "verif", "-o", exe, "./cmd/" + cmdname], cwd=HARNESS, env=GOENV, timeout=3600)
+        rc, out = run(["go", "build"] + _modfile_args(hdir) + ["-tags", "verif", "-o", exe, "./cmd/" + cmdname], cwd=hdir, env=GOENV, timeout=3600)
     if rc == 0:
         _built.add(cmdname)
     return rc == 0, exe, out
